@@ -129,6 +129,48 @@ fn check_singleton(e: &Error, rec: &[Vec<String>], what: &str) -> Result<(), Fai
     Ok(())
 }
 
+type R = Option<(usize, usize)>;
+
+thread_local! {
+    static POOL: std::cell::RefCell<Vec<proc_macro2::Span>> = std::cell::RefCell::new(vec![]);
+}
+
+/// Eight distinct source spans per case (one source text is parsed per case; the previous case's is forgotten).
+fn pool_reset() {
+    vmodel::util::fresh_spans();
+    let ts: proc_macro2::TokenStream = "s0 s1 s2 s3 s4 s5 s6 s7".parse().expect("span pool");
+    POOL.with(|p| *p.borrow_mut() = ts.into_iter().map(|t| t.span()).collect());
+}
+
+fn pool(i: usize) -> proc_macro2::Span {
+    POOL.with(|p| p.borrow()[i % 8])
+}
+
+/// Which span the error labelled `n` is built with: every third label has none.
+fn span_rule(n: usize) -> Option<usize> {
+    if n % 3 == 1 {
+        None
+    } else {
+        Some(n % 7)
+    }
+}
+
+fn spans_of(e: &Error) -> Vec<R> {
+    e.clone().flatten().into_iter().map(|x| x.explicit_span().map(vmodel::util::range)).collect()
+}
+
+/// What was recorded comes back with the spans it was recorded with: every leaf its own span, else the span of the bundle
+/// it was recorded in, else none - and the bundle the accumulator makes carries no span of its own.
+fn check_spans(e: &Error, rec: &[Vec<String>], rec_spans: &[Vec<R>], what: &str) -> Result<(), Fail> {
+    let want: Vec<R> = rec_spans.iter().flatten().cloned().collect();
+    let got = spans_of(e);
+    ensure!(got == want, "c05:spans-differ", "{}: the recorded errors {:?} come back with spans {:?}, they were recorded with {:?}", what, rec, got, want);
+    if rec.len() >= 2 {
+        ensure!(e.explicit_span().is_none(), "c05:bundle-has-a-span-nobody-attached", "{}: the bundle of {} recorded errors carries the span {:?}", what, rec.len(), e.explicit_span().map(vmodel::util::range));
+    }
+    Ok(())
+}
+
 fn labels_of(e: Error) -> Vec<String> {
     e.flatten().into_iter().map(|x| x.to_string()).collect()
 }
@@ -166,41 +208,64 @@ fn check_inner(ctx: &Ctx, h: &History) -> Result<(), Fail> {
     }
     // model: recorded errors, each a list of labels (a bundle records as one error with several leaves)
     let mut rec: Vec<Vec<String>> = vec![];
+    let mut rec_spans: Vec<Vec<R>> = vec![];
+    pool_reset();
     let mut next = 0usize;
     let mut recording_ops = 0usize;
     let mut checkpoints = 0usize;
     let repeat = h.repeat_labels;
-    let mut fresh = |k: usize, next: &mut usize| -> (Error, Vec<String>) {
+    let leaf = |n: usize| -> (Error, String, R) {
+        let l = lbl(n);
+        let e = Error::custom(&l).at("p");
+        match span_rule(n) {
+            Some(i) => (e.with_span(&pool(i)), l, Some(vmodel::util::range(pool(i)))),
+            None => (e, l, None),
+        }
+    };
+    let mut fresh = |k: usize, next: &mut usize| -> (Error, Vec<String>, Vec<R>) {
         if k <= 1 {
-            let l = lbl(if repeat { *next / 2 % 2 } else { *next });
+            let (e, l, r) = leaf(if repeat { *next / 2 % 2 } else { *next });
             *next += 1;
-            (Error::custom(&l).at("p"), vec![format!("{} at p", l)])
+            (e, vec![format!("{} at p", l)], vec![r])
         } else {
-            let ls: Vec<String> = (0..k)
+            let first = *next;
+            let parts: Vec<(Error, String, R)> = (0..k)
                 .map(|_| {
-                    let l = lbl(if repeat { *next / 2 % 2 } else { *next });
+                    let x = leaf(if repeat { *next / 2 % 2 } else { *next });
                     *next += 1;
-                    l
+                    x
                 })
                 .collect();
-            (
-                Error::multiple(ls.iter().map(|l| Error::custom(l).at("p")).collect()),
-                ls.iter().map(|l| format!("{} at p", l)).collect(),
-            )
+            let labels: Vec<String> = parts.iter().map(|p| format!("{} at p", p.1)).collect();
+            let mut spans: Vec<R> = parts.iter().map(|p| p.2).collect();
+            let mut b = Error::multiple(parts.into_iter().map(|p| p.0).collect());
+            // every other bundle has a span of its own, which its span-less members inherit when the tree is flattened
+            if first % 2 == 0 {
+                b = b.with_span(&pool(7));
+                let br = Some(vmodel::util::range(pool(7)));
+                for s in spans.iter_mut() {
+                    if s.is_none() {
+                        *s = br;
+                    }
+                }
+            }
+            (b, labels, spans)
         }
     };
     for (i, op) in h.ops.iter().enumerate() {
         match op {
             Op::Push => {
-                let (e, l) = fresh(1, &mut next);
+                let (e, l, sp) = fresh(1, &mut next);
                 acc!().push(e);
                 rec.push(l);
+                rec_spans.push(sp);
                 recording_ops += 1;
             }
             Op::PushBundle(k) => {
-                let (e, l) = fresh(*k as usize, &mut next);
+                let (e, l, sp) = fresh(*k as usize, &mut next);
                 acc!().push(e);
                 rec.push(l);
+                rec_spans.push(sp);
                 recording_ops += 1;
             }
             Op::HandleOk(v) => {
@@ -215,7 +280,8 @@ fn check_inner(ctx: &Ctx, h: &History) -> Result<(), Fail> {
                 );
             }
             Op::HandleErr => {
-                let (e, l) = fresh(1, &mut next);
+                let (e, l, sp) = fresh(1, &mut next);
+                rec_spans.push(sp);
                 let r = acc!().handle(Err::<u16, Error>(e));
                 ensure!(
                     r.is_none(),
@@ -239,7 +305,8 @@ fn check_inner(ctx: &Ctx, h: &History) -> Result<(), Fail> {
                 );
             }
             Op::HandleInErr => {
-                let (e, l) = fresh(1, &mut next);
+                let (e, l, sp) = fresh(1, &mut next);
+                rec_spans.push(sp);
                 let r = acc!().handle_in(|| Err::<u16, Error>(e));
                 ensure!(
                     r.is_none(),
@@ -253,10 +320,12 @@ fn check_inner(ctx: &Ctx, h: &History) -> Result<(), Fail> {
             }
             Op::Extend(k) => {
                 let mut es = vec![];
-                for _ in 0..*k {
-                    let (e, l) = fresh(1, &mut next);
+                for j in 0..*k {
+                    // (an item handed to `extend` may itself be a bundle: it is recorded as one error)
+                    let (e, l, sp) = fresh(if j == 1 && i % 3 == 0 { 2 } else { 1 }, &mut next);
                     es.push(e);
                     rec.push(l);
+                    rec_spans.push(sp);
                 }
                 if h.lazy_extend {
                     // the same errors through adapters that cannot promise a length: `filter` (lower bound 0), or - for
@@ -299,6 +368,7 @@ fn check_inner(ctx: &Ctx, h: &History) -> Result<(), Fail> {
                         );
                         let want: Vec<String> = rec.iter().flatten().cloned().collect();
                         check_singleton(&e, &rec, "checkpoint()")?;
+                        check_spans(&e, &rec, &rec_spans, "checkpoint()")?;
                         let n_direct = e.clone().into_iter().count();
                         let got = labels_of(e);
                         ensure!(
@@ -360,6 +430,7 @@ fn check_inner(ctx: &Ctx, h: &History) -> Result<(), Fail> {
                         want.len()
                     );
                     check_singleton(&e, &rec, "finish")?;
+                    check_spans(&e, &rec, &rec_spans, "finish")?;
                     let n_direct = e.clone().into_iter().count();
                     let got = labels_of(e);
                     ensure!(
@@ -390,6 +461,9 @@ fn check_inner(ctx: &Ctx, h: &History) -> Result<(), Fail> {
                 v.len(),
                 rec.len()
             );
+            let got_spans: Vec<R> = v.iter().flat_map(spans_of).collect();
+            let want_spans: Vec<R> = rec_spans.iter().flatten().cloned().collect();
+            ensure!(got_spans == want_spans, "c05:spans-differ", "into_inner(): spans {:?}, recorded with {:?}", got_spans, want_spans);
             let got: Vec<String> = v.into_iter().flat_map(labels_of).collect();
             ensure!(
                 got == want,
@@ -569,7 +643,7 @@ fn regress_cases() -> Vec<History> {
 
 pub fn run(args: &Args) -> bool {
     let ctx = Ctx::new("C05", "histories", vmodel::ev::mix_seed(args.seed, "C05", "histories", args.shard), args);
-    ctx.set_rule("vec(op,0..24) over {push, push-bundle, handle Ok/Err, handle_in Ok/Err, extend(0..3), checkpoint} + terminal {finish, finish_with, into_inner, drop}, interpreted against (recorded list) model with uniquely labelled errors; drop-during-unwind probed in child processes. Non-trivial: >=3 recording ops and >=1 checkpoint, or an unwind probe; distinct by structural hash");
+    ctx.set_rule("vec(op,0..24) over {push, push-bundle, handle Ok/Err, handle_in Ok/Err, extend(0..3), checkpoint} + terminal {finish, finish_with, into_inner, drop}, interpreted against (recorded list) model with uniquely labelled errors, two in three of them built with a source span, bundles (pushed, or handed to extend as one item) with a span of their own every other time: what comes back has the recorded labels in order, the recorded spans (own, else the enclosing recorded bundle's), and the accumulator's own bundle carries no span; drop-during-unwind probed in child processes. Non-trivial: >=3 recording ops and >=1 checkpoint, or an unwind probe; distinct by structural hash");
     if let Some(path) = &args.replay {
         let (_, case) = vmodel::ev::load_replay_case(path);
         let h: History = serde_json::from_value(case).expect("bad replay case");
